@@ -4,8 +4,10 @@ import json, os, subprocess
 HERE = os.path.dirname(os.path.dirname(os.path.abspath(__file__)))
 import glob
 claims = {}
+integrated = set(open(os.path.join(HERE, 'tools', 'integrated.txt')).read().split())
 for f in sorted(glob.glob(os.path.join(HERE, 'tools', 'claims.d', '*.json'))):
-    claims[os.path.basename(f)[:-5]] = json.load(open(f))
+    if os.path.basename(f)[:-5] in integrated:      # only checks I have integrated and run
+        claims[os.path.basename(f)[:-5]] = json.load(open(f))
 props = [json.loads(l) for l in open(os.path.join(HERE, 'properties.jsonl'))]
 ids = [p['id'] for p in props]
 checks, na = [], []
